@@ -58,3 +58,74 @@ Proof.
   pose proof (LI_run k t es) as (_ & _ & _ & H4). fold c in H4. rewrite Ek in H4.
   unfold reported. apply closed_head_closed_last. now apply H4.
 Qed.
+
+Lemma ghosts_partial k t es :
+  let c := run (init k t) es in
+  k <> Server -> late_accept c = false -> late_connect c = false -> bad_deliv c = 0 /\ bad_sent c = 0.
+Proof.
+  intros c Hk Ha Hc. destruct (nolate_facts k t es Ha Hc) as [_ Ht]. fold c in Ht.
+  pose proof (kd_run k t es) as Ek. fold c in Ek. rewrite Ek in Ht. now destruct (Ht Hk) as (_ & ? & ?).
+Qed.
+
+(* one-step facts, for EVERY state c (reachable or not) *)
+Lemma send_closing_noop c m : closing (st c) = true -> step c (Send m) = c.
+Proof. intros H. unfold step. destruct (created_guard c (Send m)); [reflexivity|]. cbn [step0]. now rewrite H. Qed.
+
+Lemma disconnect_idempotent c r : closing (st c) = true ->
+  rep (step c (Disconnect r)) = rep c /\ st (step c (Disconnect r)) = st c /\ in_reg (step c (Disconnect r)) = in_reg c.
+Proof.
+  intros H. unfold step. destruct (created_guard c (Disconnect r)); [tauto|]. cbn [step0].
+  unfold do_disconnect. rewrite H. destruct (at_ c); norm; tauto.
+Qed.
+
+Lemma no_delivery_while_closing c x : closing (st c) = true -> delivered (step c (ReaderGets x)) = delivered c.
+Proof.
+  intros H. unfold step. destruct (created_guard c (ReaderGets x)); [reflexivity|]. cbn [step0].
+  destruct (reader c); try reflexivity. unfold do_disconnect. rewrite H. destruct x; norm; reflexivity.
+Qed.
+
+Lemma closed_unregisters c : in_reg (finish_close c) = false /\ st (finish_close c) = CLOSED /\ writer (finish_close c) = WNone.
+Proof. unfold finish_close. norm. cbn. tauto. Qed.
+
+Lemma closing_then_closed c : closing (st c) = false ->
+  let c' := fst (do_disconnect c) in
+  (writer c = WNone -> firstn 2 (rep c') = [CLOSED; CLOSING] /\ in_reg c' = false) /\
+  (writer c <> WNone -> firstn 1 (rep c') = [CLOSING] /\ closers c' = S (closers c) /\ in_reg c' = in_reg c).
+Proof.
+  intros H c'. subst c'. destruct (dd_cases c) as [(? & E)|[(? & ? & E)|(? & ? & E)]]; [congruence| |];
+    rewrite E; cbn [fst]; norm; cbn; split; intros; try congruence; tauto.
+Qed.
+
+(* witnesses *)
+Definition wit_F14 : list event := [Accept; InitRead IEof; CloseDone; AcceptReturns].
+Definition wit_F15 : list event := [Create; ConnectStart; Cancel].
+Definition wit_F27 : list event := [Create; ConnectStart; Disconnect RRequested; ConnectOk; SendInit SOk; ReaderGets XMsg; Send SOk].
+
+Lemma monotone_refuted : exists k t es, ~ chain k (reported (run (init k t) es)).
+Proof. exists Incoming, TP, wit_F14. vm_compute. intros (_ & H & _). discriminate. Qed.
+
+Lemma closed_once_last_refuted : exists k t es, k <> Server /\ ~ closed_last (reported (run (init k t) es)).
+Proof. exists Incoming, TP, wit_F14. split; [discriminate|]. vm_compute. intros (_ & H & _). specialize (H eq_refl). discriminate. Qed.
+
+Lemma no_delivery_after_closed_refuted : exists k t es c x,
+  k <> Server /\ c = run (init k t) es /\ In CLOSED (reported c) /\ delivered (step c (ReaderGets x)) = S (delivered c).
+Proof.
+  exists Outgoing, TP, (firstn 5 wit_F27), (run (init Outgoing TP) (firstn 5 wit_F27)), XMsg.
+  split; [discriminate|]. split; [reflexivity|]. vm_compute. split; [tauto|reflexivity].
+Qed.
+
+Lemma send_after_closed_refuted : exists k t es c,
+  k <> Server /\ c = run (init k t) es /\ In CLOSED (reported c) /\ sent (step c (Send SOk)) = S (sent c).
+Proof.
+  exists Outgoing, TP, (firstn 6 wit_F27), (run (init Outgoing TP) (firstn 6 wit_F27)).
+  split; [discriminate|]. split; [reflexivity|]. vm_compute. split; [tauto|reflexivity].
+Qed.
+
+Lemma registry_exact_refuted : exists k t es,
+  let c := run (init k t) es in quiescent c = true /\ in_reg c <> should_be_registered c.
+Proof. exists Outgoing, TP, wit_F15. vm_compute. split; [reflexivity|discriminate]. Qed.
+
+Lemma registry_exact_refuted_F27 : exists k t es,
+  let c := run (init k t) es in quiescent c = true /\ in_reg c = false /\ should_be_registered c = true.
+Proof. exists Outgoing, TP, wit_F27. vm_compute. repeat split. Qed.
+
